@@ -406,3 +406,85 @@ def read_step(filled: List[bool], la: int, lr: int, has_entry: bool, eid: int, r
     except Exception:  # noqa: BLE001
         ok = False
     return fin(M, ok, filled=filled, la=la, lr=lr, has_entry=has_entry, eid=eid, ref=ref)
+
+
+# ---------------------------------------------------------------------------------------
+# L-TAB-SPEC: the real writer against the SPEC's reader (association list), table size n a symbolic
+# UNBOUNDED integer >= 1 (the writer only compares against it; nothing reaches C).
+
+class SpecReader:
+    def __init__(self, n):
+        self.n, self.slots, self.la, self.lr = n, {}, 0, 0
+
+    def entry(self, i, value):
+        if i == 0:
+            i = self.la + 1
+        if not (1 <= i) or not (i <= self.n):
+            raise ValueError("entry id outside table")
+        self.slots = {k: v for k, v in self.slots.items() if not (k == i)}
+        self.slots[i] = value
+        self.la = i
+
+    def get(self, i):
+        if not (1 <= i) or not (i <= self.n):
+            raise ValueError("reference outside table")
+        for k, v in self.slots.items():
+            if k == i:
+                return v
+        raise ValueError("reference to empty slot")
+
+    def name(self, ref):
+        i = ref if ref != 0 else self.lr + 1
+        v = self.get(i)
+        self.lr = i
+        return v
+
+    def prefix(self, ref):
+        i = ref if ref != 0 else self.lr
+        if i == 0:
+            return ""
+        v = self.get(i)
+        self.lr = i
+        return v
+
+    def datatype(self, ref):
+        if ref == 0:
+            raise ValueError("datatype 0")
+        return self.get(ref)
+
+
+def spec(n: int, ks: List[int]) -> bool:
+    """
+    pre: n >= 1 and len(ks) == P["L"] and all(0 <= k <= 3 for k in ks)
+    post: _
+    """
+    kind = P["kind"]
+    al = ["", "a", "b", "c"] if kind == "prefix" else ["z", "a", "b", "c"]
+    try:
+        enc = LookupEncoder(lookup_size=n)
+        rd = SpecReader(n)
+        ok = True
+        live = 0
+        for k in list(P.get("fixed", [])) + list(ks):
+            key = None
+            for i in range(4):
+                if k == i:
+                    key = al[i]
+            entry = enc.encode_entry_index(key)
+            if kind == "name":
+                ref = enc.encode_name_term_index(key)
+            elif kind == "prefix":
+                ref = enc.encode_prefix_term_index(key)
+            else:
+                ref = enc.encode_datatype_term_index(key)
+            if entry is not None:
+                ok = ok & (0 <= entry) & (entry <= n)
+                rd.entry(entry, key)
+            ok = ok & (0 <= ref) & (ref <= n)
+            got = getattr(rd, kind)(ref)
+            ok = ok & (got == key) & (len(rd.slots) <= n) & (len(enc.lookup.data) <= n)
+        if P.get("twin"):
+            ok = False
+    except Exception:  # noqa: BLE001
+        ok = False
+    return fin(M, ok, n=n, ks=ks)
